@@ -64,7 +64,10 @@ def gen_cases(r, n, thorough):
         if fail:
             oracle = oracle[:r.randint(0, min(len(oracle), 8))] + [r.choice(["E", 0])]
         cfg = {"max_msg": 256, "max_payload": maxpl, "budget": 1 << 20, "max_conns": 2, "queue": queue}
-        cases.append({"cfg": cfg, "items": items, "oracle": oracle, "expect": [f.hex() for f in frames], "overflow": overflow, "fail": fail})
+        # a third of the cases run over a STAGING transport (what userspace TLS is): accepted bytes reach the peer only when
+        # the writer is flushed; what has reached the peer while the connection is open and idle is what counts
+        cases.append({"cfg": cfg, "items": items, "oracle": oracle, "expect": [f.hex() for f in frames], "overflow": overflow, "fail": fail,
+                      "staging": r.random() < 0.34 and not fail and not overflow})
     return cases
 
 
@@ -301,7 +304,8 @@ def run(tier, replay=None):
             stats["multi_batch_cases"] += 1 if len(c["items"]) > 128 else 0
             stats["overflow_cases"] += 1 if c.get("overflow") else 0
             stats["failed_write_cases"] += 1 if c.get("fail") else 0
-            got = bytes.fromhex(o["out"])
+            got = bytes.fromhex(o["out_idle"] if c.get("staging") and not c.get("overflow") and not c.get("fail") and "out_idle" in o else o["out"])
+            stats["staging_transport_cases"] = stats.get("staging_transport_cases", 0) + (1 if c.get("staging") else 0)
             if o["panic"] is True or o["panic"] == "hung":
                 violations.append((f"connection task {o['panic']} while writing", c))
             exp = b"".join(bytes.fromhex(x) for x in c["expect"]) if "expect" in c else None
@@ -309,7 +313,8 @@ def run(tier, replay=None):
                 nontrivial.add(o["out"])
                 if not c.get("overflow") and not c.get("fail"):
                     if got != exp:
-                        violations.append(("bytes received differ from the concatenation of the queued frames (no write error, no overflow)", c))
+                        violations.append(("bytes received differ from the concatenation of the queued frames (no write error, no overflow)"
+                                           + ("; staging transport: bytes accepted by the writer but not flushed never reach the peer" if c.get("staging") else ""), c))
                 elif c.get("fail"):
                     if not exp.startswith(got):
                         violations.append(("after a failed write the bytes received are not a prefix of the queued frames", c))
